@@ -1216,6 +1216,10 @@ def ref_duration(v):
     exact = int((s + td).timestamp()) - int(s.timestamp())
     if e is not None and e[0] == "dtend":
         exact = int(dtval_datetime(e[1]).timestamp()) - int(s.timestamp())
+    if e is not None and e[0] == "duration" and v["dtstart"][0] != "date" and e[1] >= 0:
+        # a single event: RFC 5545 3.3.6 — nominal days, exact hours / minutes / seconds
+        days = timedelta(days=td.days)
+        exact = int((s + days).timestamp()) + int((td - days).total_seconds()) - int(s.timestamp())
     return td, exact
 
 
@@ -1272,6 +1276,17 @@ def gen_vevent_text(rng):
         r["tz"] = "UTC"
         hh = mm = ss = 0
     w = calendar.timegm((y, m, d, hh, mm, ss))
+    near = False
+    if kind == "tz" and not recurring and rng.random() < 0.5:
+        # a single event that starts a few hours before a UTC-offset change of its zone: DURATION
+        # days are nominal, its hours exact (RFC 5545 3.3.6)
+        off0, tr = PR.zone_table(r["tz"])
+        cand = [(T, (off0 if i == 0 else tr[i - 1][1])) for i, (T, o) in enumerate(tr)
+                if calendar.timegm((1985, 1, 1, 0, 0, 0)) < T < calendar.timegm((2030, 1, 1, 0, 0, 0))]
+        if cand:
+            T, before = rng.choice(cand)
+            w = T + before - rng.choice([1, 2, 5, 26]) * 3600 - rng.choice([0, 1800])
+            near = True
     if kind == "tz":
         # avoid wall-clock readings that do not exist or exist twice (their reading is the zone
         # library's business, not the property's)
@@ -1294,6 +1309,8 @@ def gen_vevent_text(rng):
         end = None if ek == "none" else (["dtend", ["date", w // DAY + days]] if ek == "dtend" else ["duration", days * DAY])
     else:
         dur = rng.choice([0, 60, 900, 3600, 5400, 8 * H, DAY, DAY + H, 2 * DAY, min(per, 5 * DAY)])
+        if near and rng.random() < 0.8:
+            ek, dur = "duration", rng.choice([3 * H, 8 * H, DAY + 3 * H, DAY + 8 * H, 2 * DAY, 30 * H])
         if ek == "none":
             end = None
         elif ek == "duration":
